@@ -748,6 +748,132 @@ def derive_times_dispatch(fns):
     return out
 
 
+def read_text_tables():
+    """the literal text the control / rule writers and readers are made of (ast of wntr/epanet/io.py and
+    wntr/network/controls.py): keywords, prefixes, clause templates, comparison words, status words"""
+    io_tree = ast.parse(open(os.path.join(vlib.REPO, "wntr", "epanet", "io.py")).read())
+    ct_tree = ast.parse(open(os.path.join(vlib.REPO, "wntr", "network", "controls.py")).read())
+    T = {}
+
+    def fn_of(tree, cls, name):
+        for c in tree.body:
+            if isinstance(c, ast.ClassDef) and c.name == cls:
+                for f in c.body:
+                    if isinstance(f, ast.FunctionDef) and f.name == name:
+                        return f
+            if cls is None and isinstance(c, ast.FunctionDef) and c.name == name:
+                return c
+        raise BrokenTie("%s.%s not found" % (cls, name))
+
+    def strs(node, pred=lambda v: True):
+        return [n.value for n in ast.walk(node) if isinstance(n, ast.Constant) and isinstance(n.value, str) and pred(n.value)]
+
+    # keywords of parse_rules_lines: the list compared with word.upper()
+    f = fn_of(io_tree, "_EpanetRule", "parse_rules_lines")
+    kws = [[e.value for e in n.comparators[0].elts] for n in ast.walk(f) if isinstance(n, ast.Compare) and isinstance(n.ops[0], ast.In)
+           and isinstance(n.comparators[0], ast.List) and "word.upper()" in ast.unparse(n.left)]
+    if len(kws) != 1:
+        raise BrokenTie("parse_rules_lines: keyword list not found")
+    T["ruleKeywords"] = kws[0]
+    T["ruleDispatch"] = sorted({c.value for n in ast.walk(f) if isinstance(n, ast.Compare) and "words[0].upper()" in ast.unparse(n.left)
+                                for c in n.comparators if isinstance(c, ast.Constant)})
+    # __str__ templates
+    T["ruleStr"] = strs(fn_of(io_tree, "_EpanetRule", "__str__"), lambda v: "RULE" in v)
+    # prefixes
+    pref = []
+    for nm, kind in (("add_control_condition", "cond"), ("add_action_on_true", "then"), ("add_action_on_false", "else")):
+        f = fn_of(io_tree, "_EpanetRule", nm)
+        for d in f.args.defaults:
+            if isinstance(d, ast.Constant) and isinstance(d.value, str):
+                pref.append((kind, d.value.strip()))
+    f = fn_of(io_tree, "_EpanetRule", "add_control_condition")
+    for v in strs(f, lambda v: v.strip() in ("AND", "OR") and v != v.strip()):
+        if ("cond", v.strip()) not in pref:
+            pref.append(("cond", v.strip()))
+    f = fn_of(io_tree, "_EpanetRule", "from_if_then_else")
+    for n in ast.walk(f):
+        if isinstance(n, ast.Call) and isinstance(n.func, ast.Attribute) and n.func.attr in ("add_action_on_true", "add_action_on_false") and len(n.args) == 2:
+            pref.append(("then" if n.func.attr.endswith("true") else "else", n.args[1].value.strip()))
+    T["rulePrefixes"] = pref
+    # clause templates
+    tpl = []
+    for nm in ("add_control_condition", "add_action_on_true", "add_action_on_false"):
+        f = fn_of(io_tree, "_EpanetRule", nm)
+        for n in ast.walk(f):
+            if isinstance(n, ast.Assign) and len(n.targets) == 1 and isinstance(n.targets[0], ast.Name) and n.targets[0].id == "fmt" and isinstance(n.value, ast.Constant):
+                tpl.append((nm, n.value.value.split()))
+    T["clauseTemplates"] = tpl
+    # simple controls
+    f = fn_of(io_tree, "InpFile", "_write_controls")
+    T["controlTemplates"] = [v.split() for v in strs(f, lambda v: v.startswith("{ltype}"))]
+    T["controlWriteWords"] = sorted(set(strs(f, lambda v: v in ("above", "below", "TIME", "CLOCKTIME"))))
+    f = fn_of(io_tree, None, "_read_control_line")
+    T["controlReadWords"] = sorted(set(strs(f, lambda v: v.isupper() and v.isalpha())))
+    T["controlReadSlots"] = sorted({int(m) for n in ast.walk(f) if isinstance(n, ast.Subscript) and isinstance(n.value, ast.Name) and n.value.id == "current"
+                                   and isinstance(n.slice, ast.Constant) for m in [n.slice.value]})
+    # Comparison: symbol / text / parse
+    comp = [c for c in ct_tree.body if isinstance(c, ast.ClassDef) and c.name == "Comparison"][0]
+    for prop in ("symbol", "text"):
+        f = [x for x in comp.body if isinstance(x, ast.FunctionDef) and x.name == prop][0]
+        pairs = []
+        for n in ast.walk(f):
+            if isinstance(n, ast.If) and isinstance(n.test, ast.Compare) and isinstance(n.test.comparators[0], ast.Attribute):
+                ret = [r for r in n.body if isinstance(r, ast.Return)]
+                if ret and isinstance(ret[0].value, ast.Constant):
+                    pairs.append((n.test.comparators[0].attr, ret[0].value.value))
+        T["rel" + prop.capitalize()] = pairs
+    f = [x for x in comp.body if isinstance(x, ast.FunctionDef) and x.name == "parse"][0]
+    pl = []
+    for n in ast.walk(f):
+        if isinstance(n, ast.If) and isinstance(n.test, ast.Compare) and isinstance(n.test.ops[0], ast.In):
+            ret = [r for r in n.body if isinstance(r, ast.Return)]
+            if ret and isinstance(ret[0].value, ast.Attribute):
+                pl.append((ret[0].value.attr, [e.value for e in n.test.comparators[0].elts if isinstance(e, ast.Constant)]))
+    T["relParse"] = pl
+    # _parse_value: status words
+    cc = [c for c in ct_tree.body if isinstance(c, ast.ClassDef) and c.name == "ControlCondition"][0]
+    f = [x for x in cc.body if isinstance(x, ast.FunctionDef) and x.name == "_parse_value"][0]
+    sv = []
+    for n in ast.walk(f):
+        if isinstance(n, ast.If) and isinstance(n.test, ast.Compare) and isinstance(n.test.comparators[0], ast.Constant) and isinstance(n.test.comparators[0].value, str):
+            ret = [r for r in n.body if isinstance(r, ast.Return)]
+            if ret and isinstance(ret[0].value, ast.Constant) and isinstance(ret[0].value.value, int):
+                sv.append((n.test.comparators[0].value, ret[0].value.value))
+    T["statusValues"] = sv
+    # the text forms of the dictionary path (C13)
+    T["dictTemplates"] = []
+    for cls_, meth in (("ControlAction", "__str__"), ("ValueCondition", "__str__"), ("OrCondition", "__str__"), ("AndCondition", "__str__"),
+                       ("TimeOfDayCondition", "__str__"), ("SimTimeCondition", "__str__")):
+        c = [x for x in ct_tree.body if isinstance(x, ast.ClassDef) and x.name == cls_][0]
+        f = [x for x in c.body if isinstance(x, ast.FunctionDef) and x.name == meth][0]
+        T["dictTemplates"].append((cls_, [v for v in strs(f, lambda v: "{" in v or v.strip() in ("AND", "OR")) if "clock_day" not in v and "sim_time" not in v]))
+    for k in ("ruleKeywords", "ruleStr", "rulePrefixes", "clauseTemplates", "controlTemplates", "relSymbol", "relText", "relParse", "statusValues"):
+        if not T[k]:
+            raise BrokenTie("text tables: nothing extracted for %s" % k)
+    return T
+
+
+def text_tables_lean(T):
+    def pairs(l):
+        return "[" + ", ".join("(%s, %s)" % (_ls(a), _ls(b) if isinstance(b, str) else (str(b) if isinstance(b, int) else _ll(b))) for a, b in l) + "]"
+    out = ["/-! ### the literal text of the control / rule writers and readers (ast of io.py and controls.py) -/"]
+    out.append("def ruleKeywords : List String := %s" % _ll(T["ruleKeywords"]))
+    out.append("def ruleDispatch : List String := %s" % _ll(T["ruleDispatch"]))
+    out.append("def ruleStr : List String := %s" % _ll(T["ruleStr"]))
+    out.append("def rulePrefixes : List (String × String) := %s" % pairs(T["rulePrefixes"]))
+    out.append("def clauseTemplates : List (String × List String) := %s" % pairs(T["clauseTemplates"]))
+    out.append("def controlTemplates : List (List String) := [%s]" % ", ".join(_ll(t) for t in T["controlTemplates"]))
+    out.append("def controlWriteWords : List String := %s" % _ll(T["controlWriteWords"]))
+    out.append("def controlReadWords : List String := %s" % _ll(T["controlReadWords"]))
+    out.append("def controlReadSlots : List Nat := [%s]" % ", ".join(map(str, T["controlReadSlots"])))
+    out.append("def relSymbol : List (String × String) := %s" % pairs(T["relSymbol"]))
+    out.append("def relText : List (String × String) := %s" % pairs(T["relText"]))
+    out.append("def relParse : List (String × List String) := %s" % pairs(T["relParse"]))
+    out.append("def statusValues : List (String × Nat) := %s" % pairs(T["statusValues"]))
+    out.append("def dictTemplates : List (String × List String) := %s" % pairs(T["dictTemplates"]))
+    return "\n".join(out) + "\n"
+
+
 def read_sections_and_order(path=None):
     """`_INP_SECTIONS` and the order in which `InpFile.read` calls the section readers (ast)"""
     tree = ast.parse(open(path or os.path.join(vlib.REPO, "wntr", "epanet", "io.py")).read())
@@ -1247,6 +1373,7 @@ def gen_schema_inp_lean(wntr, rows, kw):
     out.append("/-- the hand-written expectation (harness/props/c12.py ORDER_SENSITIVE) -/\ndef orderSensitiveExpected : List String := %s\n" % _ll(ORDER_SENSITIVE))
     out.append("/-- the special cases of `_read_times` (ast): (index of the word tested, word, attribute); every other line sets `<w0>_<w1>` -/")
     out.append("def timesDispatch : List (Nat × String × String) := [%s]\n" % ", ".join("(%d, %s, %s)" % (i, _ls(w), _ls(a)) for i, w, a in derive_times_dispatch(FNS_CACHE["fns"])))
+    out.append(text_tables_lean(read_text_tables()))
     od = wntr.network.WaterNetworkModel().options.to_dict()
     out.append("/-- keys of `Options.to_dict()` per group (reflection) -/")
     out.append("def optionKeys : List (String × List String) := [\n%s]\n" % ",\n".join(
